@@ -199,17 +199,21 @@ def run(ctx):
         container, 2 = an element of a slot container, ..."""
         if A.fmt(t) == "self._values":
             return 0
-        if t[0] == "index":
+        if t[0] == "elem":
             inner = t[1]
             if inner[0] == "call" and inner[1][0] == "attr" \
                     and inner[1][2] in ("items", "values", "keys"):
                 d = depth(inner[1][1])
                 return None if d is None else d + 1
             d = depth(inner)
+            return None if d is None else d + 1
+        if t[0] == "index":
+            inner = t[1]
+            d = depth(inner)
             if d is None:
                 return None
-            # a constant index into an (key, value) item is not a new level
-            if inner[0] == "index" and inner[1][0] == "call" \
+            # a constant index into a (key, value) item is not a new level
+            if inner[0] == "elem" and inner[1][0] == "call" \
                     and inner[1][1][0] == "attr" \
                     and inner[1][1][2] == "items" and A.is_const(t[2]):
                 return d
